@@ -882,6 +882,29 @@ class Origin:
         return "Origin(%s %s %s %s)" % (self.kind, self.data if self.kind != "call" else callee_name(self.data), self.fields, self.site.loc() if self.site else "")
 
 
+BLOCK_EXCLUDE = {}  # body id -> blocks to ignore as definition sites (a constant-specialised view of the body, see excluded_blocks)
+
+
+class excluded_blocks:
+    """`with excluded_blocks(body, blocks):` - origins() ignores definitions made in these blocks of the body (the blocks a constant
+    value of a parameter rules out), for every analysis built on it"""
+
+    def __init__(self, body, blocks):
+        self.body, self.blocks = body, frozenset(blocks)
+
+    def __enter__(self):
+        self.old = BLOCK_EXCLUDE.get(self.body.id)
+        BLOCK_EXCLUDE[self.body.id] = self.blocks
+        return self
+
+    def __exit__(self, *a):
+        if self.old is None:
+            BLOCK_EXCLUDE.pop(self.body.id, None)
+        else:
+            BLOCK_EXCLUDE[self.body.id] = self.old
+        return False
+
+
 def origins(body, place_or_op, transparent=TRANSPARENT_CALLS, max_steps=2000, def_filter=None, index_origins=False):
     """set of Origins a place/operand may derive its value from (peeling copies, refs, casts,
     derefs, field projections and `transparent` calls' first argument).  With index_origins, a place that indexes a slice / array
@@ -937,6 +960,9 @@ def origins(body, place_or_op, transparent=TRANSPARENT_CALLS, max_steps=2000, de
         ds = body.defs.get(l, [])
         if def_filter is not None and len(ds) > 1:
             ds = def_filter(l, ds)
+        excl = BLOCK_EXCLUDE.get(body.id)
+        if excl and len(ds) > 1:
+            ds = [d for d in ds if d.bb not in excl] or ds
         if not ds and not (1 <= l <= body.n_args):
             # only partially defined (aggregate built field by field) or never (ZST)
             pds = body.partial_defs.get(l, [])
